@@ -97,7 +97,84 @@ fn make_pair(g: &Grammar, rng: &mut Rng, overlap: u32, per_kind: usize) -> (GenM
         }
     }
     b.resolve_refs(rng, 0);
+    if overlap > 0 {
+        let k = 1 + rng.below(3);
+        add_shared_referrers(&a, &mut b, rng, k);
+    }
     (a, b)
+}
+
+/// identical twins that hold references: an element of A (with its references) is copied into B, and for each of its
+/// targets that B does not define yet an existing definition of B in that namespace is renamed to the target's name --
+/// so B stays consistent, B's copy is textually identical to A's element, and what it refers to in B is a different
+/// element than what A's refers to in A (a same-name conflict)
+fn add_shared_referrers(a: &GenModule, b: &mut GenModule, rng: &mut Rng, count: usize) {
+    let a_ids = a.child_ids();
+    let a_pool = a.def_pool();
+    for _ in 0..count {
+        let cands: Vec<usize> = (0..a.children.len())
+            .filter(|&i| {
+                let c = &a.children[i];
+                a_ids[i].0 != "FUNCTION"
+                    && a_ids[i].0 != "GROUP"
+                    && c.iter().any(|t| t.role == Role::Param && matches!(site_of(&t.elem), Some(Site::Def(ns)) if ns != Ns::MemorySegment && ns != Ns::Criterion))
+                    && c.iter().any(|t| t.role == Role::Param && matches!(site_of(&t.elem), Some(Site::Ref(_))))
+                    // (memory segments and variant criteria are not elements of the graph)
+                    && !c.iter().any(|t| t.role == Role::Param && matches!(site_of(&t.elem), Some(Site::Ref(ns)) if ns == Ns::MemorySegment || ns == Ns::Criterion))
+            })
+            .collect();
+        if cands.is_empty() {
+            return;
+        }
+        let ai = cands[rng.below(cands.len())];
+        let elem = a.children[ai].clone();
+        let Some((dns, dname)) = elem.iter().find_map(|t| match (t.role == Role::Param, site_of(&t.elem)) {
+            (true, Some(Site::Def(ns))) => Some((ns, t.text.clone())),
+            _ => None,
+        }) else { continue };
+        let b_pool = b.def_pool();
+        if b_pool.get(&dns).map_or(false, |v| v.contains(&dname)) {
+            continue;
+        }
+        let mut ok = true;
+        let mut renames: Vec<(Ns, String, String)> = vec![];
+        for t in elem.iter().filter(|t| t.role == Role::Param) {
+            let Some(Site::Ref(ns)) = site_of(&t.elem) else { continue };
+            if !a_pool.get(&ns).map_or(false, |v| v.contains(&t.text)) {
+                continue; // a convention name
+            }
+            if ns == dns && t.text == dname {
+                continue; // a reference to the element itself
+            }
+            let b_has = |n: &str| b_pool.get(&ns).map_or(false, |v| v.iter().any(|x| x == n)) || renames.iter().any(|(rns, _, to)| *rns == ns && to == n);
+            if b_has(&t.text) {
+                continue;
+            }
+            let free: Vec<String> = b_pool.get(&ns).map_or(vec![], |v| {
+                v.iter().filter(|n| !a_pool.get(&ns).map_or(false, |p| p.contains(n)) && !renames.iter().any(|(rns, from, _)| *rns == ns && from == *n) && !(ns == dns && **n == dname)).cloned().collect()
+            });
+            if free.is_empty() {
+                ok = false;
+                break;
+            }
+            renames.push((ns, free[rng.below(free.len())].clone(), t.text.clone()));
+        }
+        if !ok {
+            continue;
+        }
+        for c in b.children.iter_mut() {
+            for t in c.iter_mut().filter(|t| t.role == Role::Param) {
+                let ns = match site_of(&t.elem) {
+                    Some(Site::Def(ns)) | Some(Site::Ref(ns)) => ns,
+                    _ => continue,
+                };
+                if let Some((_, _, to)) = renames.iter().find(|(rns, from, _)| *rns == ns && *from == t.text) {
+                    t.text = to.clone();
+                }
+            }
+        }
+        b.children.push(elem);
+    }
 }
 
 pub struct PairResult {
@@ -272,12 +349,51 @@ pub fn run(args: &Args, c09: bool) -> Report {
                     }
                 }
                 if let Some((na, nb, nr)) = &r.nodes {
-                    // canonical answer: nodes sorted by (tag, name); the static-body hash of same-name-merged kinds
-                    // (FUNCTION, GROUP) is not compared (a list block may be added to A's element)
+                    // canonical answer (what the node abstraction of Model/Merge.lean can carry): nodes sorted;
+                    // FUNCTION / GROUP: static-body hash not compared, references grouped by site (sites ascending, first
+                    // occurrences in order, duplicates dropped) -- whether A has an empty list block and where a block taken
+                    // over from B lands are invisible in the graph; MOD_PAR: hash not compared when A and B both have one
+                    // and they differ (B's MEMORY_SEGMENT / MEMORY_LAYOUT / SYSTEM_CONSTANT are added inside A's)
+                    fn modpar_hash(m: &str) -> Option<&str> {
+                        m.split(',').find_map(|n| {
+                            let p: Vec<&str> = n.split('~').collect();
+                            if p[0] == "MOD_PAR" { p.get(2).copied() } else { None }
+                        })
+                    }
+                    fn canon_refs(refs: &str) -> String {
+                        if refs == "-" {
+                            return "-".to_string();
+                        }
+                        let r: Vec<&str> = refs.split(';').collect();
+                        let mut sites: Vec<&str> = vec![];
+                        for x in &r {
+                            let s = x.split('@').next().unwrap_or("");
+                            if !sites.contains(&s) {
+                                sites.push(s);
+                            }
+                        }
+                        sites.sort();
+                        let mut out: Vec<&str> = vec![];
+                        for s in sites {
+                            for x in &r {
+                                if x.split('@').next().unwrap_or("") == s && !out.contains(x) {
+                                    out.push(x);
+                                }
+                            }
+                        }
+                        out.join(";")
+                    }
+                    let star_modpar = matches!((modpar_hash(na), modpar_hash(nb)), (Some(x), Some(y)) if x != y);
                     let mut ns: Vec<String> = if nr == "-" { vec![] } else {
                         nr.split(',').map(|n| {
                             let p: Vec<&str> = n.split('~').collect();
-                            if p[0] == "FUNCTION" || p[0] == "GROUP" { format!("{}~{}~*~{}", p[0], p[1], p[3]) } else { n.to_string() }
+                            if p[0] == "FUNCTION" || p[0] == "GROUP" {
+                                format!("{}~{}~*~{}", p[0], p[1], canon_refs(p[3]))
+                            } else if p[0] == "MOD_PAR" && star_modpar {
+                                format!("{}~{}~*~{}", p[0], p[1], p[3])
+                            } else {
+                                n.to_string()
+                            }
                         }).collect()
                     };
                     ns.sort();
